@@ -12,41 +12,41 @@ CLAIMED = {
     "C01": {
         "technique": _T + "; constructive preconditions, covered-cell-set oracle under an independent minimal-image metric",
         "level": "Generated grids of all four families (Cartesian 1-3D x all periodicity masks x anisotropy 0.4-2.5 x 3.5 decades of spacing) and 0-4 rendered droplets satisfying the stated separation/resolution preconditions by construction; count, volume, half-cell centre bound and in-box position checked against an independent covered-cell oracle; centres up to several periods outside the box; exhaustive corner sweep (7 sub-cell offsets per axis x up to 8 radii around the corner of periodic boxes with unequal cell counts); sibling-grid warm-up calls. Bounded search (<=24 cells per axis quick, <=48 thorough).",
-        "note": "Knife-edge cells (within 1e-9 R of the surface) skipped and counted; cylindrical droplets kept inside the z-range (py-pde does not wrap z when rendering).",
+        "note": "Droplet parameters are handed over in equivalent representations (float / integer arrays, lists, tuples, numpy scalars), unit grids as pde.UnitGrid; knife-edge cells (within 1e-9 R of the surface) skipped and counted; cylindrical droplets kept inside the z-range (py-pde does not wrap z when rendering).",
     },
     "C02": {
         "technique": "exhaustive enumeration of all binary images on small grids (itertools) + Hypothesis-generated structured masks, against an independent BFS connected-component oracle with periodic unwrapping and bipartite matching",
-        "level": "Every binary image on Cartesian grids of 6, 10, 3x3, 3x4, 2x2x3 cells (thorough: up to 14, 4x4, 2x3x3) for every periodicity mask and on cylindrical grids up to 2x5 (thorough 4x4) for both periodic_z, plus generated masks (noise, wrapped boxes, persistent walks) on grids up to 40/16^2/8^3; volume, unwrapped centre of mass, sphere non-overlap and justification of omissions.",
+        "level": "Every binary image on Cartesian grids of 6, 10, 3x3, 3x4, 2x2x3 cells (thorough: up to 14, 4x4, 2x3x3) for every periodicity mask and on cylindrical grids up to 2x5 (thorough 4x4) for both periodic_z, plus generated masks (noise, wrapped boxes, persistent walks) on grids up to 40/16^2/8^3, handed over as masks or as float64 / float32 / boolean / int8 / integer images with numeric or automatic thresholds; volume, unwrapped centre of mass, sphere non-overlap and justification of omissions.",
         "note": "Positions of winding components are not judged; lopsided on-axis objects and winding objects accompanied by on-axis blobs are swept over every z-position of periodic cylinders; no known finding is open, nothing is excluded.",
     },
     "C03": {
         "technique": _T + "; independent minimal-image geometry oracle, inside/outside equivalence, metamorphic roll equivariance, emulsion = clipped sum under permutation",
         "level": "Generated droplets of all five classes on every compatible grid family (generic and dyadic Cartesian 1-3 D with all periodicity masks, polar, spherical, cylindrical), widths None/0/positive, arbitrary level pairs, centres on cell centres/faces/outside the box; finiteness, range, midpoint equivalence, exact indicator, monotonic decay, roll equivariance, emulsion clause.",
-        "note": "The droplet's own interface_distance defines the shape (for the 2-D class it is cross-checked against the documented series; C13 checks all classes); each render is preceded by an unjudged render on a sibling grid (other periodicity / spacing / origin); knife-edge and ambiguous-image cells excluded and counted; exact 1-D dyadic cases judged without tolerance.",
+        "note": "The droplet's own interface_distance defines the shape (for all three perturbed classes it is cross-checked against the documented series, 3-D via an independent real-spherical-harmonics oracle); each render is preceded by an unjudged render on a sibling grid (other periodicity / spacing / origin); knife-edge and ambiguous-image cells excluded and counted; exact 1-D dyadic cases judged without tolerance.",
     },
     "C04": {
         "technique": _T + "; harness-side recording proxy for scipy.optimize (initial/final cost, bounds), independent recomputation of the deviation over the fit region, post-condition oracle",
-        "level": "Generated images (clean, noisy, rescaled, pure noise, smooth, self-render) x candidates of every class and mode count x all grid families and periodicities x four intensity options x optional tolerance / evaluation budget (non-converged fits); sharp candidates (width 0); cost non-increase, bounds, class, symmetry-fixed coordinates, periodic wrap, image immutability, fixed point.",
+        "level": "Generated images (clean, noisy, rescaled, pure noise, smooth, self-render) x candidates of every class and mode count x all grid families and periodicities x four intensity options x optional tolerance / evaluation budget (non-converged fits); sharp candidates (width 0), perturbed candidates without modes, images as float64 / float32 / integer grey levels / boolean; cost non-increase, bounds, class, symmetry-fixed coordinates, periodic wrap, image immutability, fixed point.",
         "note": "scipy least_squares trusted; fixed-point clause for candidates with an explicit width (incl. 0); sharp candidates with a cell centre within 1e-6 R of the interface are knife-edge cases (counted, not judged); independent deviation skipped on periodic cylindrical grids (py-pde rendering does not wrap z).",
     },
     "C05": {
         "technique": _T + "; render/locate+refine round trip with a recovery oracle (position, radius, width to 1e-4)",
-        "level": "Generated resolvable diffuse droplets and well-separated emulsions on all grid families (Cartesian dims 1-3 with every periodicity mask, mild anisotropy, 3.5 decades of spacing; polar; spherical; cylindrical), five threshold rules, four intensity options; centres also within a fraction of a cell of a periodic boundary; in four cases of seven an unjudged analysis with other options precedes the judged one in the same process; one-to-one matching under the minimal-image metric.",
+        "level": "Generated resolvable diffuse droplets and well-separated emulsions on all grid families (Cartesian dims 1-3 with every periodicity mask, mild anisotropy, 3.5 decades of spacing; polar; spherical; cylindrical), five threshold rules, four intensity options; centres also within a fraction of a cell of a periodic boundary; single-precision images; in four cases of seven an unjudged analysis with other options precedes the judged one in the same process; one-to-one matching under the minimal-image metric.",
         "note": "Bounded to radius 3-8 cells / width 1-2 cells as stated; gap >= 10 widths for emulsions; 3-D cases single droplet.",
     },
     "C06": {
         "technique": "exhaustive enumeration of lattice histories + Hypothesis-generated time courses; invariant over the history (multiset partition, input snapshot)",
-        "level": "All 3-frame histories over every subset of a 4-site (thorough 5-site) 1-D lattice x methods x cut-offs x {no grid, periodic}; generated time courses of 0-6 (10) frames, any droplet class, dims 1-3, three placement modes, exact duplicates within a frame, all cut-offs (also relative to actual pair distances), time axes far from zero / tiny / through zero; partition invariant, gap-free/at-most-once under the stated premise, input unmodified.",
+        "level": "All 3-frame histories over every subset of a 4-site (thorough 5-site) 1-D lattice x methods x cut-offs x {no grid, periodic}; generated time courses of 0-6 (10) frames, any droplet class, dims 1-3, three placement modes, exact duplicates within a frame, all cut-offs (also relative to actual pair distances), time axes far from zero / tiny / through zero / integer nanosecond stamps beyond 2^53 (compared exactly); time stamps and frames in equivalent containers; partition invariant, gap-free/at-most-once under the stated premise, input unmodified.",
         "note": "Premise (no within-frame overlap) evaluated with an independent minimal-image metric and a 1e-9 margin.",
     },
     "C07": {
         "technique": "exhaustive lattice histories + Hypothesis-generated identity-preserving motion histories; differential against a re-implemented overlap relation and greedy closest-pair matching",
-        "level": "Links extracted from returned tracks compared with the oracle relation (overlap: link implies overlap, no-overlap implies new track, one-to-one relation followed exactly; distance: cut-off respected, no end/start pair within the cut-off, greedy matching when distances are distinct; motion histories keep identities across periodic boundaries).",
+        "level": "Links extracted from returned tracks compared with the oracle relation (overlap: link implies overlap, no-overlap implies new track, one-to-one relation followed exactly; distance: cut-off respected, no end/start pair within the cut-off, greedy matching when distances are distinct; motion histories keep identities across periodic boundaries; one history in eight is tracked backwards in time).",
         "note": "Cases violating the no-within-frame-overlap premise or with unidentifiable entries are skipped and counted (C06 judges those); the consecutive-overlap clause is judged for every pair of entries of a track; links that skip a frame and the links of histories with untracked droplets are judged too.",
     },
     "C08": {
         "technique": _T + "; write/read round trip through real HDF5 files, byte-level comparison",
-        "level": "Generated collections of all four kinds and all five droplet classes, dims 1-3, None/0/positive widths, extreme finite values, empty collections/members, 0-13 members, int/float/negative times, one sixth heterogeneous (incl. the two 3-D perturbed classes that share a data layout); tracks built by the constructor or by append; optional info dict; files overwritten in place; lengths, classes, record bytes, times and library equality compared after from_file; then the written object is edited in place, written again and read back.",
+        "level": "Generated collections of all four kinds and all five droplet classes, dims 1-3, None/0/positive widths, extreme finite values, empty collections/members, 0-13 members, int/float/negative times, one sixth heterogeneous (incl. the two 3-D perturbed classes that share a data layout); str / pathlib file names; tracks built by the constructor or by append; optional info dict; files overwritten in place; lengths, classes, record bytes, times and library equality compared after from_file; then the written object is edited in place, written again and read back.",
         "note": "h5py trusted; files live in a per-process scratch directory removed at exit; writing that raises is accepted only for heterogeneous collections.",
     },
     "C09": {
@@ -56,12 +56,12 @@ CLAIMED = {
     },
     "C10": {
         "technique": _T + "; exhaustive sequences on a 1-D lattice with exact arithmetic; post-condition/invariant oracle",
-        "level": "Generated emulsions (0-8 droplets, ties, radius 0, coincident centres, positions outside the box or far from the origin, constructed hidden overlaps behind tiny satellites) x min_distance of either sign x grids with every periodicity mask; all ordered sequences of <=3 (thorough 4) lattice droplets exhaustively; from_random on bounds and every grid family; all queries are asked of one emulsion object before and after the removal, and returned matrices are overwritten by the caller.",
+        "level": "Generated emulsions (0-8 droplets, ties, radius 0, coincident centres, positions outside the box or far from the origin, constructed hidden overlaps behind tiny satellites) x min_distance of either sign x grids with every periodicity mask; all ordered sequences of <=3 (thorough 4) lattice droplets exhaustively; from_random on bounds and every grid family; all queries are asked of one emulsion object before and after the removal, and of an emulsion whose members were linked and re-ordered, and returned matrices are overwritten by the caller.",
         "note": "Independent minimal-image metric; tolerance 1e-9 x scale except on the exact lattice domain where equality cases are judged exactly.",
     },
     "C11": {
         "technique": _T + "; three-path differential (python / in-place / numba-compiled), commutativity, merge-tree associativity",
-        "level": "Generated pairs and lists (2-8) of Spherical/Diffuse droplets in 1-3 D over 6 decades of radius, incl. zero radius and the sharp width 0; a data array linked to the operands before an in-place merge must still mirror them afterwards; all three code paths compared with the textbook formulas and each other; two random merge trees per case.",
+        "level": "Generated pairs and lists (2-8) of Spherical/Diffuse droplets in 1-3 D over 6 decades of radius, incl. zero radius and the sharp width 0; a data array linked to the operands before an in-place merge must still mirror them afterwards; operands of different provenance (copy, pickle round trip, emulsion member, droplet returned by refine_droplet) and in-place flags in equivalent true forms; all three code paths compared with the textbook formulas and each other; two random merge trees per case.",
         "note": "Numerical tolerances 1e-12/1e-13/1e-10; the symbolic claim is not reachable by search.",
     },
     "C12": {
@@ -71,22 +71,22 @@ CLAIMED = {
     },
     "C13": {
         "technique": _T + "; quadrature of the body bounded by interface_distance, exact differential geometry (planar curvature from r,r',r''; mean curvature from fundamental forms), re-implemented harmonic series, sphere limit",
-        "level": "Generated perturbed droplets of all three classes, R0 over two decades, arbitrary centres, several simultaneously non-zero modes up to degree 4 (dense and sparse patterns that skip whole degrees) in four amplitude regimes; a droplet of the twin 3-D class is queried first; exact claims to 1e-6..1e-12, first-order claims as |error| R0 <= C s^2 over s = 1e-5..1e-2.",
+        "level": "Generated perturbed droplets of all three classes, R0 over two decades, arbitrary centres, several simultaneously non-zero modes up to degree 4 (dense and sparse patterns that skip whole degrees) in four amplitude regimes; a droplet of the twin 3-D class is queried first; angles as scalars, 1-d arrays, 2-d tables (C / Fortran order, transposed views), azimuth omitted; shape functions against the documented series (2-D, axisymmetric, 3-D via independent real spherical harmonics); exact claims to 1e-6..1e-12, first-order claims as |error| R0 <= C s^2 over s = 1e-5..1e-2.",
         "note": "numpy/scipy quadrature primitives trusted; 2-D perimeter tolerance max(1e-6, twice the discretisation error of a 256-node rule); directions kept 0.2 rad off the poles; 3-D volume only for <= 8 non-zero modes.",
     },
     "C14": {
         "technique": _T + "; differential between the online trackers and the offline analysis of the identical stored frames (direct drive and real py-pde solver runs)",
-        "level": "Generated histories of 0-8 (12) fields on every grid family with irregular times (increasing, repeated, restarting, spacing shrinking by 1e7, through 0) and drawn analysis settings, sources (None / index / callable), pre-filled time courses and files; solver runs of three PDEs; frame-by-frame byte comparison with EmulsionTimeCourse.from_storage and with the written file; LengthScaleTracker compared bit-wise with get_length_scale (NaN when it raises) and with its JSON file.",
+        "level": "Generated histories of 0-8 (12) fields on every grid family with irregular times (increasing, repeated, restarting, spacing shrinking by 1e7, through 0) and drawn analysis settings (plain values or numpy scalars), sources (None / index / callable), pre-filled time courses and files; solver runs of three PDEs; frame-by-frame byte comparison with EmulsionTimeCourse.from_storage and with the written file; LengthScaleTracker compared bit-wise with get_length_scale (NaN when it raises) and with its JSON file.",
         "note": "py-pde storage/solvers trusted; solver runs on 8x8-16x16 grids with the numpy backend.",
     },
     "C15": {
         "technique": "schedule exploration by harness-controlled delay injection (Hypothesis-drawn completion orders, exhaustive over 4 tasks in the thorough tier), differential against the serial run",
-        "level": "Generated fields / storages x process counts {2,3,5,auto} x forced worker completion orders; locate_droplets(refine=True), refine_droplets (incl. user-supplied solver parameters, fresh copy per call), EmulsionTimeCourse.from_storage and DropletTrackList.from_storage must return (or, for a candidate that cannot be fitted, fail in) the byte-identical, identically ordered result of the serial run; serial runs must be repeatable.",
+        "level": "Generated fields / storages x process counts {2,3,5,auto} x forced worker completion orders; locate_droplets(refine=True), refine_droplets (incl. user-supplied solver parameters, fresh copy per call; candidates as list / tuple / Emulsion / generator / iterator; storages with repeated or non-monotonic time stamps), EmulsionTimeCourse.from_storage and DropletTrackList.from_storage must return (or, for a candidate that cannot be fitted, fail in) the byte-identical, identically ordered result of the serial run; serial runs must be repeatable.",
         "note": "Explores completion orders of whole tasks on forked process pools, not pre-emption inside a task; delays are never used as a verdict.",
     },
     "C16": {
         "technique": _T + "; Parseval identity, wave-number oracle, metamorphic relations (scale, roll, flip, transpose, stretch)",
-        "level": "Generated fully periodic grids (dims 1-3, even/odd shapes, anisotropic spacings over 4 decades) x field kinds x transformation bundles; unsmoothed and smoothed variants with requested wave numbers and add_zero; results are overwritten by the caller and the call repeated; a sibling grid of the same shape is analysed first.",
+        "level": "Generated fully periodic grids (dims 1-3, even/odd shapes, anisotropic spacings over 4 decades) x field kinds x transformation bundles; unsmoothed and smoothed variants with requested wave numbers and add_zero; results are overwritten by the caller and the call repeated; a sibling grid of the same shape is analysed first; the same values as an integer / boolean field.",
         "note": "numpy.fft trusted; tolerances rtol 1e-9/atol 1e-13 (smoothed 1e-7/1e-12).",
     },
     "C17": {
@@ -96,17 +96,17 @@ CLAIMED = {
     },
     "C18": {
         "technique": _T + "; differential against the documented binary image, Otsu by definition, exact affine metamorphic relation",
-        "level": "Generated fields with exactly representable values on all grid families x five threshold rules x exact affine maps x minimal radii incl. exactly a found radius; byte-for-byte comparison with locate_droplets_in_mask(data > t_oracle), affine invariance, exact radius-filter sub-list, also with refinement; 1-D images of 4095...200003 cells next to powers of two (bound between a fitted and a cluster radius); Otsu additionally on dense bimodal samples.",
+        "level": "Generated fields with exactly representable values on all grid families x five threshold rules x exact affine maps x minimal radii incl. exactly a found radius; byte-for-byte comparison with locate_droplets_in_mask(data > t_oracle), affine invariance, exact radius-filter sub-list, also with refinement; 1-D images of 4095...200003 cells next to powers of two; the same integer-valued image as an int64 field (bound between a fitted and a cluster radius); Otsu additionally on dense bimodal samples.",
         "note": "numpy.histogram trusted for binning; Otsu near-ties between different masks and mean-rule knife edges skipped and counted.",
     },
     "C19": {
         "technique": "exhaustive enumeration of the finite configuration cube (itertools) with a class/shape/layout oracle",
-        "level": "All 10752 combinations of grid family/periodicity (plus two grids with strongly anisotropic cells) x modes x width x refine x threshold rule x image (one / two / three droplets, empty, speck, droplet + speck) are executed in both tiers (exhaustive: true); exact class, amplitude count, dimension, carried width, single dtype and formable tabular data.",
+        "level": "All 10752 combinations of grid family/periodicity (plus two grids with strongly anisotropic cells) x modes x width x refine x threshold rule x image (one / two / three droplets, empty, speck, droplet + speck), a third of them with numpy-scalar request arguments, are executed in both tiers (exhaustive: true); exact class, amplitude count, dimension, carried width, single dtype and formable tabular data.",
         "note": "One fixed geometry per grid family; refinement quality is not judged here.",
     },
     "C20": {
         "technique": "model-based testing: Hypothesis-generated operation sequences (as data) interpreted against a list model, plus exhaustive sequences over a 7-operation alphabet",
-        "level": "Three machines (Emulsion, EmulsionTimeCourse, DropletTrack/List), 1-50 (thorough 200) operations per sequence incl. ownership probes; model equality and independence of copies/slices after every step; arrays returned by queries are overwritten by the caller; nearly monodisperse histories; rejected batches (list / Emulsion / generator with a wrong droplet in the middle); summary queries vs definitions and under member reversal; all sequences of length <= 4 (5) over a small alphabet.",
+        "level": "Three machines (Emulsion, EmulsionTimeCourse, DropletTrack/List), 1-50 (thorough 200) operations per sequence incl. ownership probes; model equality and independence of copies/slices after every step; arrays returned by queries are overwritten by the caller; nearly monodisperse histories; rejected batches (list / Emulsion / generator with a wrong droplet in the middle); in-place reorder operations; frames appended as Emulsion / list / tuple / generator; a linked data array must mirror its droplets after every later step; summary queries vs definitions and under member reversal; all sequences of length <= 4 (5) over a small alphabet.",
         "note": "append(copy=False) aliasing unspecified and not judged; remove_overlapping only checked to leave a sub-sequence (C10 has the details).",
     },
 }
